@@ -23,8 +23,8 @@ type concCfg struct {
 	SharedH    bool       `json:"shared_handle,omitempty"`
 	TempDomain int        `json:"temp_domain,omitempty"`
 	Windows    bool       `json:"windows_typed,omitempty"` // the instance emulates Windows (builds with avfs_setostype only)
-	Focus      int        `json:"focus,omitempty"`    // 0: whole path pool; 1-3: one directory and its entries only
-	PreOpen    []string   `json:"pre_open,omitempty"` // per client: path held open on handle 0 when the concurrent phase starts ("" = none)
+	Focus      int        `json:"focus,omitempty"`         // 0: whole path pool; 1-3: one directory and its entries only
+	PreOpen    []string   `json:"pre_open,omitempty"`      // per client: path held open on handle 0 when the concurrent phase starts ("" = none)
 	Strategy   int        `json:"strategy"`
 	PreemptPM  int        `json:"preempt_permille,omitempty"`
 	Pair       bool       `json:"pair_mode,omitempty"` // two clients, one or two calls each on one directory, handles pre-opened
